@@ -12,6 +12,7 @@ import (
 	_ "verifengine/props/c04"
 	_ "verifengine/props/c05"
 	_ "verifengine/props/c06"
+	_ "verifengine/props/c07"
 	_ "verifengine/props/c08"
 	_ "verifengine/props/c09"
 	_ "verifengine/props/c10"
